@@ -1161,3 +1161,31 @@ func PathCount(fn *ssa.Function, start ssa.Instruction, isTarget, isEnd func(ssa
 	}
 	return r.min, r.max, true
 }
+
+// AllPathsReturnAvoidingNot reports whether every path from the start of block b to a Return
+// executes `through` (i.e. no Return is reachable while avoiding it).
+func AllPathsReturnAvoidingNot(b *ssa.BasicBlock, through ssa.Instruction) bool {
+	seen := map[*ssa.BasicBlock]bool{}
+	var walk func(x *ssa.BasicBlock) bool // true if a Return is reachable avoiding through
+	walk = func(x *ssa.BasicBlock) bool {
+		if seen[x] {
+			return false
+		}
+		seen[x] = true
+		for _, in := range x.Instrs {
+			if in == through {
+				return false
+			}
+			if IsExit(in) {
+				return true
+			}
+		}
+		for _, s := range x.Succs {
+			if walk(s) {
+				return true
+			}
+		}
+		return false
+	}
+	return !walk(b)
+}
